@@ -5,10 +5,12 @@ use vstd::arithmetic::power2::*;
 use vstd::arithmetic::mul::*;
 use vstd::arithmetic::div_mod::*;
 use vstd::bits::*;
+use vstd::std_specs::bits::*;
 verus! {
 //@ include lib/base.rs
 //@ include lib/lvr.rs
 //@ include lib/divspec.rs
+//@ include lib/shift.rs
 
 // ASSUMED (label A): reciprocal = reciprocal_mg10 (table-seeded Newton iteration over Wrapping<u64>, MG10 Alg. 3);
 // its contract is exactly "equals reciprocal_ref"; the lookup table is pinned by unit recip_table.
@@ -978,6 +980,156 @@ pub fn div_nx2_normalized(u: &mut [u64], d: u128) -> /*+*/(rem:/*-*/ u128/*+*/)
     remainder
 }
 //@ end
+
+// value of the shifted number's digits at positions >= i:  floor(N * 2^s / B^i) = lvr(l, i, n) * 2^s + l[i-1] / 2^(64-s)
+pub open spec fn vsh(l: Seq<u64>, i: int, n: int, s2: int, c: int) -> int {
+    lvr(l, i, n) * s2 + (if i >= 1 { (l[i - 1] as int) / c } else { 0 })
+}
+// one step down: V_i == V_{i+1} * B + u_i  with u_i = (l[i] mod c) * s2 + l[i-1] / c   (u_0 = (l[0] mod c) * s2)
+pub proof fn lemma_vsh_step(l: Seq<u64>, i: int, n: int, s2: int, c: int)
+    requires 0 <= i < n <= l.len(), c * s2 == B, c >= 1, s2 >= 1
+    ensures vsh(l, i, n, s2, c) == vsh(l, i + 1, n, s2, c) * B + ((l[i] as int) % c) * s2 + (if i >= 1 { (l[i - 1] as int) / c } else { 0 })
+{
+    let x = l[i] as int;
+    lemma_fundamental_div_mod(x, c);
+    assert(lvr(l, i, n) == x + B * lvr(l, i + 1, n));
+    let h = lvr(l, i + 1, n);
+    let t: int = if i >= 1 { (l[i - 1] as int) / c } else { 0 };
+    assert((x + B * h) * s2 + t == (h * s2 + x / c) * B + (x % c) * s2 + t) by(nonlinear_arith)
+        requires x == c * (x / c) + x % c, c * s2 == B;
+}
+
+//@ extract src/algorithms/div/small.rs fn div_nx1 rewrite="* ( & mut limbs $1 )" => "limbs $1" #1 rewrite="( & limbs $1 )" => "limbs $1" #3
+pub fn div_nx1(limbs: &mut [u64], divisor: u64) -> /*+*/(r:/*-*/ u64/*+*/)
+    requires divisor != 0, old(limbs).len() >= 1, old(limbs)@[old(limbs).len() - 1] != 0
+    ensures final(limbs).len() == old(limbs).len(), r < divisor,
+        lvr(old(limbs)@, 0, old(limbs).len() as int) == lvr(final(limbs)@, 0, old(limbs).len() as int) * divisor as int + r as int/*-*/
+{
+    vassert (divisor != 0 );
+    vassert (!limbs.is_empty() );
+    vassert (*limbs.last().unwrap() != 0 );
+    let shift = divisor.leading_zeros();
+    /*+*/proof { lemma_lz_facts(divisor); }/*-*/
+    if shift == 0 {
+        /*+*/proof { lemma2_to64(); assert((divisor as int) * 1 == divisor as int) by(nonlinear_arith); }/*-*/
+        return div_nx1_normalized(limbs, divisor);
+    }
+    /*+*/let ghost d0 = divisor as int;
+    let ghost s2 = pow2(shift as nat) as int;
+    let ghost c = pow2((64 - shift) as nat) as int;
+    let ghost n = limbs.len() as int;
+    let ghost l0 = limbs@;
+    proof {
+        lemma_pow2_adds((64 - shift) as nat, shift as nat); lemma2_to64(); lemma_pow2_pos((64 - shift) as nat); lemma_pow2_pos(shift as nat);
+        assert(c * s2 == B);
+        lemma_u64_shl_is_mul(divisor, shift as u64);
+    }/*-*/
+    let divisor = divisor << shift;
+    let reciprocal = reciprocal(divisor);
+    let last = limbs [limbs.len() - 1 ];
+    let mut remainder = last >> (64 - shift);
+    /*+*/proof {
+        lemma_u64_shr_is_div(last, (64 - shift) as u64);
+        assert(remainder as int == (last as int) / c);
+        lemma_shl_or_shr_u64(0, last, shift);
+        assert(lvr(l0, n, n) == 0);
+        assert(0 * (divisor as int) == 0);
+        assert(vsh(l0, n, n, s2, c) == remainder as int);
+        assert(s2 <= divisor as int) by(nonlinear_arith) requires divisor as int == d0 * s2, d0 >= 1, s2 >= 1;
+    }/*-*/
+    for i in /*+*/iter:/*-*/ (1..limbs.len()).rev()
+        /*+*/invariant
+            limbs.len() == n, l0.len() == n, n >= 1, 0 < shift < 64, c * s2 == B, c >= 1, s2 >= 1,
+            s2 == pow2(shift as nat), c == pow2((64 - shift) as nat),
+            divisor as int == d0 * s2, divisor as int >= B / 2, is_reciprocal(divisor, reciprocal),
+            iter.seq().len() == n - 1,
+            forall|j: int| 0 <= j < n - iter.index@ ==> limbs@[j] == l0[j],
+            (remainder as int) < divisor as int,
+            vsh(l0, n - iter.index@, n, s2, c) == lvr(limbs@, n - iter.index@, n) * divisor as int + remainder as int,/*-*/
+    {
+        /*+*/let ghost k = n - iter.index@;          // == i + 1
+        let ghost q_prev = limbs@;/*-*/
+        let upper = limbs [i ];
+        let lower = limbs [i - 1 ];
+        let u = (upper << shift) | (lower >> (64 - shift));
+        /*+*/proof {
+            assert(i as int == k - 1);
+            lemma_shl_or_shr_u64(upper, lower, shift);
+            lemma_vsh_step(l0, i as int, n, s2, c);
+        }/*-*/
+        let n = u128::join(remainder, u);
+        /*+*/proof { assert((n as int) / B == remainder as int) by { lemma_fundamental_div_mod_converse(n as int, B, remainder as int, u as int); assert(B * (remainder as int) == remainder as int * B) by(nonlinear_arith); } }/*-*/
+        let (q, r) = div_2x1(n, divisor, reciprocal);
+        limbs [i ] = q;
+        /*+*/proof {
+            let ii = i as int; let nn = limbs.len() as int;
+            lemma_lvr_ext(q_prev, limbs@, ii + 1, nn);
+            assert(lvr(limbs@, ii, nn) == q as int + B * lvr(limbs@, ii + 1, nn));
+            let h = lvr(limbs@, ii + 1, nn); let dv = divisor as int; let rin = remainder as int;
+            assert(vsh(l0, ii, nn, s2, c) == (q as int + B * h) * dv + r as int) by(nonlinear_arith)
+                requires vsh(l0, ii, nn, s2, c) == vsh(l0, ii + 1, nn, s2, c) * B + u as int,
+                    vsh(l0, ii + 1, nn, s2, c) == h * dv + rin,
+                    q as int * dv + r as int == rin * B + u as int;
+        }/*-*/
+        remainder = r;
+    }
+    /*+*/let ghost q_prev = limbs@;
+    let ghost rem_in = remainder as int;
+    proof { assert(vsh(l0, 1, n, s2, c) == lvr(limbs@, 1, n) * divisor as int + rem_in); assert(limbs@[0] == l0[0]); }/*-*/
+    let first = ( & mut limbs [0 ] );
+    /*+*/proof {
+        lemma_u64_shl_is_mul_mod(l0[0], shift, c, s2);
+        lemma_vsh_step(l0, 0, n, s2, c);
+    }
+    let ghost u0 = (*first << shift) as int;/*-*/
+    let n = u128::join(remainder, *first << shift);
+    let (q, remainder) = div_2x1(n, divisor, reciprocal);
+    *first = q;
+    /*+*/proof {
+        let nn = limbs.len() as int;
+        lemma_lvr_ext(q_prev, limbs@, 1, nn);
+        assert(lvr(limbs@, 0, nn) == q as int + B * lvr(limbs@, 1, nn));
+        // N * s2 == Q * d0 * s2 + R'   ==>  R' = R * s2
+        let nv = lvr(l0, 0, nn); let qv = lvr(limbs@, 0, nn); let rp = remainder as int;
+        let h = lvr(limbs@, 1, nn); let dv = divisor as int;
+        assert(vsh(l0, 0, nn, s2, c) == nv * s2);
+        assert(nv * s2 == qv * (d0 * s2) + rp) by(nonlinear_arith)
+            requires nv * s2 == vsh(l0, 1, nn, s2, c) * B + u0, vsh(l0, 1, nn, s2, c) == h * dv + rem_in,
+                q as int * dv + rp == rem_in * B + u0, qv == q as int + B * h, dv == d0 * s2;
+        lemma_u64_shr_is_div(remainder, shift as u64);
+        lemma_exact_shift(nv, qv, d0, s2, rp);
+    }/*-*/
+    remainder >> shift
+}
+//@ end
+
+// (x << s) as a u64 keeps the low 64-s bits: == (x mod 2^(64-s)) * 2^s
+pub proof fn lemma_u64_shl_is_mul_mod(x: u64, s: u32, c: int, s2: int)
+    requires 0 < s < 64, c == pow2((64 - s) as nat), s2 == pow2(s as nat)
+    ensures ((x << s) as int) == ((x as int) % c) * s2
+{
+    lemma_shl_or_shr_u64(x, 0, s);
+    lemma_u64_shr_is_div(0, (64 - s) as u64);
+    assert((0u64 >> ((64 - s) as u64)) == 0u64) by(bit_vector) requires 0 < s < 64;
+    let a = x << s;
+    assert((a | 0u64) == a) by(bit_vector);
+    lemma_pow2_pos((64 - s) as nat);
+    assert(0int / c == 0) by { lemma_div_basics(c); }
+}
+
+// N*s2 == Q*(d*s2) + R' with R' < d*s2  ==>  R'/s2 is the remainder of N by d
+pub proof fn lemma_exact_shift(nv: int, qv: int, d: int, s2: int, rp: int)
+    requires s2 >= 1, d >= 1, 0 <= rp < d * s2, nv * s2 == qv * (d * s2) + rp
+    ensures nv == qv * d + rp / s2, rp / s2 < d, rp / s2 >= 0
+{
+    // rp is a multiple of s2
+    assert(rp == (nv - qv * d) * s2) by(nonlinear_arith) requires nv * s2 == qv * (d * s2) + rp;
+    let t = nv - qv * d;
+    lemma_div_multiples_vanish(t, s2);
+    assert(t * s2 / s2 == t) by { lemma_div_by_multiple(t, s2); }
+    assert(t < d) by(nonlinear_arith) requires t * s2 < d * s2, s2 >= 1;
+    assert(t >= 0) by(nonlinear_arith) requires t * s2 >= 0, s2 >= 1;
+}
 
 } // verus!
 fn main() {}
